@@ -92,6 +92,21 @@ def k2_lines(c):
     return out
 
 
+def is_malformed(line):
+    """declarations outside the domain of the model (the declaration API raises parser_error, or silently merges):
+    duplicate option names, duplicate or reserved group names, empty metavar, a short name that is not one byte"""
+    if not line.startswith("U "):
+        return False
+    try:
+        c = dec_case(line)
+    except (ValueError, IndexError):
+        return True
+    names = [o["name"] for o in c["opts"]]
+    gnames = [g[0] for g in c["groups"]]
+    return (len(set(names)) != len(names) or len(set(gnames)) != len(gnames) or "__default" in gnames
+            or any(o["metavar"] == "" for o in c["opts"]) or any(o["short"] is not None and len(o["short"]) != 1 for o in c["opts"]))
+
+
 def toks(s):
     return s.replace("\t", " ").replace("\n", " ").split(" ")
 
@@ -215,6 +230,34 @@ def gen_usage_case(rng, k2=False):
                 posname=rng.choice(["args", "args", "FILES", "in out"]), prior=prior, groups=groups, opts=opts)
 
 
+def gen_malformed_case(rng):
+    c = gen_usage_case(rng)
+    while not c["opts"]:
+        c = gen_usage_case(rng)
+    k = rng.randrange(6)
+    o = dict(rng.choice(c["opts"]))
+    if k == 0:       # the same name declared as another kind (parser_error at declaration)
+        o["kind"] = rng.choice([x for x in "omt" if x != o["kind"]])
+        o["default"] = False if o["kind"] == "t" else None
+        o["group"] = rng.randint(0, len(c["groups"]))
+        c["opts"].append(o)
+    elif k == 1:     # declared twice with the same kind: the second call returns the first object; a different letter raises
+        o["short"] = rng.choice([o["short"], "q", None])
+        c["opts"].append(o)
+    elif k == 2:     # empty metavar
+        rng.choice(c["opts"])["metavar"] = ""
+    elif k == 3:     # short name of two bytes
+        rng.choice(c["opts"])["short"] = "ab"
+    elif k == 4:     # the reserved key of the default group
+        c["groups"].append(("__default", "x"))
+        c["opts"][0]["group"] = len(c["groups"])
+    else:            # the same group created twice
+        c["groups"] = (c["groups"] or [("g1", "")])
+        c["groups"].append(c["groups"][0])
+    rerank(c["opts"], rng)
+    return c
+
+
 def small_usage_cases():
     """every shape of a single declaration: kind x letter x flag x default x env x description"""
     descrs = ["", "d", "some words that are long enough to be wrapped once behind column forty of the text"]
@@ -231,6 +274,19 @@ def small_usage_cases():
         opts.append(dict(kind="t", group=0, name="zz", short="b", descr="", env="", metavar="ARG", flag=False, rank=None, default=False))
         opts.append(dict(kind="t", group=0, name="yy", short="a", descr="", env="", metavar="ARG", flag=False, rank=None, default=False))
         yield dict(app="app", about="", defname="arguments", pos=True, posname="args", prior="", groups=[], opts=opts)
+
+
+    # byte order: letters are sorted as (signed) char, names as unsigned bytes; groups print in creation order
+    def tg(name, short, group=0, flag=False):
+        return dict(kind="t", group=group, name=name, short=short, descr="", env="", metavar="ARG", flag=flag, rank=None, default=False)
+    opts = [tg("n1", "\xe4"), tg("n2", "a"), tg("n3", "\x7f"), tg("n4", "\x80"), tg("n5", "A"), tg("n6", "a")]
+    yield dict(app="app", about="", defname="arguments", pos=False, posname="args", prior="", groups=[], opts=rerank(opts))
+    for perm in itertools.permutations(range(3)):
+        opts = [dict(tg(n, None), kind=k, default=(False if k == "t" else None)) for n, k in zip(["\xe4b", "z", "a"], "oom")]
+        opts += [tg(n, None, group=g) for n, g in zip(["\xfft", "At", "zt"], (2, 1, 2))]
+        for o, r in zip(opts[3:], perm):
+            o["rank"] = r
+        yield dict(app="app", about="", defname="arguments", pos=False, posname="args", prior="", groups=[("zeta", "last?"), ("alpha", "")], opts=opts)
 
 
 def fp_exhaustive(tier):
@@ -309,7 +365,9 @@ class C15(Check):
             "names 1-30 bytes incl. prefixes of each other and no- names, descriptions of 0-40 words incl. words of 38-41, 71-73, 79-81 "
             "bytes, double/leading/trailing blanks, tabs, rare line breaks, metavars and defaults with blanks, env names, app names of "
             "0-100 bytes, random prior stream content, random address order of the long toggles; random format_padded calls aimed at "
-            "|w|+1 = max_width-left_pad +-1, indent = left_pad +-1, max_width <= left_pad, position -1; (iii) corpus. A usage case is "
+            "|w|+1 = max_width-left_pad +-1, indent = left_pad +-1, max_width <= left_pad, position -1; (iii) declarations outside the "
+            "model's domain (duplicate names, reserved/duplicate group names, empty metavar, two-byte short name): only 'no crash, no "
+            "hang' is compared; (iv) corpus. A usage case is "
             "non-trivial when it declares at least one option, a format_padded case when the output has a line break or more than one "
             "byte; distinct = distinct case line")
     modelled_note = ("modelled, not verified: std::setw/operator<<(char) field-width semantics, tellp() of std::stringstream (= bytes written) "
@@ -327,7 +385,7 @@ class C15(Check):
             yield enc_case(c), "usage-small"
         for line in fp_exhaustive(tier):
             yield line, "fp-exh"
-        NU = 4000 if tier == "quick" else 40000
+        NU = 4000 if tier == "quick" else 80000
         for i in range(NU):
             k2 = (i % 25 == 7)
             c = gen_usage_case(rng, k2)
@@ -337,9 +395,19 @@ class C15(Check):
                 yield line, "usage-k2"
             else:
                 yield line, "usage-rand"
-        NF = 15000 if tier == "quick" else 200000
+        for _ in range(300 if tier == "quick" else 3000):
+            line = enc_case(gen_malformed_case(rng))
+            if is_malformed(line):
+                yield line, "usage-malformed"
+        NF = 15000 if tier == "quick" else 300000
         for _ in range(NF):
             yield gen_fp_case(rng), "fp-rand"
+
+    def normalize(self, case, obs):
+        """declarations outside the model's domain are only checked for "no crash, no hang" """
+        if case.startswith("U ") and is_malformed(case):
+            return obs if obs.startswith(("CRASH", "HANG", "OTHER", "PROTOCOL")) else "MALFORMED"
+        return obs
 
     def nontrivial(self, case, mobs, iobs):
         t = text_of(iobs)
@@ -350,6 +418,8 @@ class C15(Check):
         return "\n" in t or len(t) > 1
 
     def signature(self, case, mobs, iobs):
+        if iobs == "MALFORMED":
+            return ("U", "MALFORMED")
         t = text_of(iobs) or ""
         lines = t.split("\n")
         widest = max(len(l) for l in lines)
